@@ -7,13 +7,32 @@ PROP = {
                 "StopAndWait / Start / ReconfigureProcessor outcomes, stale hashes, missing authorisation and failing store operations, on the "
                 "REAL provisioning.Service: result class, lifecycle/commit event order, Export and state dumps differ from the model, or the C16 "
                 "monitor (stale refused, authorisation, drain before mutate, failed apply consistent) fails"},
+        {"harness": "h_ctl", "comp": "locks", "n_quick": 150, "n_thorough": 4000, "timeout": 3000,
+         "relevant": lambda case: case["impl"] != "overlaps=0",
+         "why": "first-use contention on the REAL per-pipeline lock table (provisioning.pipelineLocks via the verif hook): goroutines released "
+                "together call Lock on never-used pipeline ids; an occupancy counter inside the per-id section saw two callers at once (impl "
+                "line = count + the first overlap: round, id, the two goroutines), while the lock-table event system with the section structure "
+                "regenerated from lock.go has no interleaving with two callers inside (C16_apply_lock_mutual_exclusion) - or the model itself "
+                "finds an overlapping schedule for the regenerated structure (model line)"},
+        {"harness": "h_ctl", "comp": "apigate", "n_quick": 120, "n_thorough": 3000, "timeout": 3000,
+         "relevant": lambda case: case["impl"].split(" srcgate=")[0] != case["model"].split(" srcgate=")[0],
+         "why": "the live-apply authorisation gate on the API surface, end to end: the REAL Runtime.serveGRPCAPI (verif hook) serves gRPC under a "
+                "configuration (API.AllowLiveRestartApply, Dev.Enabled), a gRPC client plans and applies a change to a running / stopped pipeline "
+                "on the real provisioning service: result class or lifecycle events differ from the specification 'the API's authorisation is the "
+                "operator flag and nothing else' (gatesearch: the four configurations probed; srcgate = configurations on which the gate "
+                "expression regenerated from the source differs from the flag)"},
     ],
     "rule": "live: import a pipeline, then 1-4 rounds of (status write, optional position write, ApplyPlanLive of a live-eligible change / any "
             "mutation / no change) with allow 3/4, stale 1/8, stop and start succeeding 4/5, reconfigure scripts over {ok, not-live, error}, "
-            "store failure index 1-12 on 1/5, in 1/5 of the applies an external Start flips the pipeline to running between the two status reads (mostly stopped before, mostly allow=0); 1/3 of the cases are the real-hash scenario (plan at T1, out-of-band change of the same / another field or resource through the services, ApplyPlanLive with the kept REAL hash); non-trivial = a lifecycle call, a stale or unauthorised refusal happened",
+            "store failure index 1-12 on 1/5, in 1/5 of the applies an external Start flips the pipeline to running between the two status reads (mostly stopped before, mostly allow=0); 1/3 of the cases are the real-hash scenario (plan at T1, out-of-band change of the same / another field or resource through the services, ApplyPlanLive with the kept REAL hash); non-trivial = a lifecycle call, a stale or unauthorised refusal happened; locks: 2-8 goroutines x 1-3 fresh ids x 300-1200 rounds per line, spinning start barrier, Go scheduler interleavings (a line is not bit-for-bit replayable: the observed overlap is in the result); apigate: gatesearch + (allow 1/3, dev 1/2, status mostly running, change none / processor settings / connector settings / description, stop and start failing 1/6)",
     "strength": "stale refused, authorisation, drain-before-mutate and store-level consistency of the failed restart apply: full for the model; "
+                "per-pipeline lock: mutual exclusion and 'the apply mutates the state its hash check read' for every interleaving of any number of "
+                "callers and ids (event system with the regenerated section structure, C16_apply_lock_mutual_exclusion, C16_apply_sees_checked_state); "
+                "authorisation chain: every ApplyPlanLive caller regenerated, the API's allow flag = the operator flag for every configuration "
+                "(C16_api_gate_is_operator_flag), running pipeline touched => operator flag or dev watcher (C16_running_touched_needs_flag_or_watcher); "
                 "data-path clauses (no record skipped, in-place swap at a record boundary) are C03/C06/C13 and assumed here",
-    "assumptions": ["plan hash = the view computeHash digests (changes with config paths / live-swappability, desired config); SHA-256 collision-freeness", "the per-pipeline lock gives mutual exclusion (one apply is sequential)",
+    "assumptions": ["plan hash = the view computeHash digests (changes with config paths / live-swappability, desired config); SHA-256 collision-freeness", "sync.Mutex semantics (acquire only when free) and: a p.mu critical section is atomic with respect to the other p.mu sections (every access to the lock map is inside one - regenerated fact)",
+                    "applies for different pipelines work on disjoint state (C15_import_frame)",
                     "a successful StopAndWait leaves the pipeline stopped with durable positions (C06), Start resumes from them (C03)",
                     "an external Start can land only between ApplyPlanLive's two status reads (the window the re-read closes), modelled as one scripted flip", "lifecycle outcomes are inputs (scripted) — concurrency with record flow is not exercised by this harness"],
 }
@@ -24,8 +43,16 @@ META = {
             "authorisation (C16_running_needs_authorisation), on the restart path StopAndWait comes first and the import only after it "
             "succeeded (C16_drain_before_mutate), a failed restart apply leaves the store unchanged-and-stopped or committed-and-stopped "
             "(C16_failed_apply_consistent_restart, using C15's store atomicity). The in-place path's fallback defect is a kernel-evaluated "
-            "counterexample. Tied by differential runs of the real provisioning service with a scripted lifecycle and call-order facts.",
+            "counterexample. The per-pipeline lock table is an event system (lookup / create / insert sections, acquire, check, apply, unlock per "
+            "caller) whose section structure is regenerated from lock.go: all callers of one id obtain the same mutex, at most one is inside, and "
+            "the state an apply mutates is the state its plan-hash check read, in every interleaving (C16_apply_lock_mutual_exclusion, "
+            "C16_apply_sees_checked_state; counterexample for the split lookup/insert variant). The authorisation chain is regenerated from the "
+            "source: the expression handed to api.NewPipelineAPIv1 (translated to Lean, local definitions inlined) equals the operator flag for "
+            "every configuration, the handler passes its constructor argument, the only other ApplyPlanLive caller is the dev watcher "
+            "(C16_running_touched_needs_flag_or_watcher). Tied by differential runs of the real provisioning service with a scripted lifecycle, "
+            "a first-use stress of the real lock table, the real serveGRPCAPI + gRPC handler, and call-order facts.",
     "note": "Proved about the model; tied to the code by correspondence testing (finite sample) and regenerated call orders. The record-level "
             "clauses (nothing skipped across the apply) are not exercised here: the lifecycle is scripted.",
-    "technique": "Lean 4 sequential-program proofs + differential correspondence with a scripted lifecycle + call-order facts",
+    "technique": "Lean 4 sequential-program proofs + event-system invariant (lock table) + regenerated gate expressions + differential "
+                 "correspondence with a scripted lifecycle, lock stress and real gRPC gate probing + call-order facts",
 }
